@@ -195,6 +195,7 @@ class Recorder:
         self.kin = []          # (kwargs_param, result)
         self.data = []         # (args, kwargs, result)
         self.singles = []      # log_likelihood_single results
+        self.spans = []        # per single evaluation: (normals_from, normals_to, gev_from, gev_to, kin_idx, data_idx)
 
     @contextlib.contextmanager
     def on(self):
@@ -231,8 +232,10 @@ class Recorder:
             return r
 
         def single(*a, **k):
+            n0, g0, k0, d0 = len(rec.normals), len(rec.gev), len(rec.kin), len(rec.data)
             r = orig_single(*a, **k)
             rec.singles.append(float(np.squeeze(r)))
+            rec.spans.append((n0, len(rec.normals), g0, len(rec.gev), k0, d0))
             return r
 
         np.random.normal = normal
